@@ -384,7 +384,19 @@ def blends(chk, prog):
                             self.v = v
                     env = Env(f.module, f)
                     obj = it.make_obj(F + "complementary.py::Complementary", gyr=_A(P.ZERO), Dt=Dt, gain=gain)
-                    env.vars.update({"self": obj, "W": _A(T), "W2": _A(T), "i": 1})
+                    env.vars.update({"self": obj, "W": _A(T), "W2": _A(T)})
+                    for nm_ in ast.walk(loop.target):          # the loop index, whatever it is called
+                        if isinstance(nm_, ast.Name):
+                            env.vars[nm_.id] = 1
+                    # locals hoisted out of the loop (weights ...) are evaluated first, if they can be
+                    for pre in f.node.body:
+                        if pre is loop or any(x is loop for x in ast.walk(pre)):
+                            break
+                        if isinstance(pre, ast.Assign) and isinstance(pre.targets[0], ast.Name) and pre.targets[0].id not in env.vars:
+                            try:
+                                env.vars[pre.targets[0].id] = it.eval(pre.value, env)
+                            except Exception:
+                                pass
                     site = f.ref + "::" + ast.unparse(s.targets[0])
 
                     def law(s=s, env=env, it=it):
